@@ -891,11 +891,35 @@ Proof.
   - apply (IH (S i0) (pre ++ [fr])); [rewrite app_length; cbn; lia| |]; now rewrite <- app_assoc.
 Qed.
 
+(* removing leftovers: files whose name passes the test are untouched *)
+Lemma fs_get_filter (g : str -> bool) d k : g k = true -> fs_get (filter (fun kv => g (fst kv)) d) k = fs_get d k.
+Proof.
+  intros Hk. induction d as [|kv r IH]; [reflexivity|]. cbn [filter fs_get].
+  destruct (str_eqb_spec k (fst kv)) as [E|E].
+  - rewrite <- E, Hk. cbn [fs_get]. rewrite <- E. now rewrite str_eqb_refl.
+  - destruct (g (fst kv)); [cbn [fs_get]; destruct (str_eqb_spec k (fst kv)); [contradiction|exact IH]|exact IH].
+Qed.
+
+Lemma mem_str_In' k l : mem_str k l = true <-> In k l.
+Proof.
+  unfold mem_str. rewrite existsb_exists. split; [intros (x & Hx & E); apply str_eqb_eq in E; now subst|].
+  intros H. exists k. split; [exact H|apply str_eqb_refl].
+Qed.
+
+(* the repaired output() spares the files the path refers to *)
+Lemma clean_keeps_sources tdir p d k : In k (map f_file p) -> fs_get (clean_dir true tdir p d) k = fs_get d k.
+Proof.
+  intros H. unfold clean_dir.
+  apply (fs_get_filter (fun k0 => negb (in_dir tdir k0 && negb (true && mem_str k0 (map f_file p))))).
+  apply mem_str_In' in H. rewrite H. cbn. now rewrite andb_false_r.
+Qed.
+
 Section RoundTrip.
-  Variables (d : fsmap) (step : Z) (move home : str) (pn : Z) (keep : list str) (p : list frame).
+  Variables (ko : bool) (d : fsmap) (step : Z) (move home : str) (pn : Z) (keep : list str) (p : list frame).
   Let arch := archive_dir home pn.
   Let tdir := accepted_dir arch.
-  Let d3 := write_txt d arch step move p.
+  Let d0 := clean_dir ko tdir p d.          (* the disk after the leftovers were removed *)
+  Let d3 := write_txt d0 arch step move p.
   Let mv := move_list d3 tdir keep p.
 
   Variable ncol : nat.
@@ -904,15 +928,15 @@ Section RoundTrip.
   Hypothesis Hnames : Forall name_ok p.
   Hypothesis Hcols : Forall (fun fr => length (f_orders fr) = ncol) p.
   Hypothesis Hkeep : Forall no_slash keep.
-  Hypothesis Hexist : Forall (fun fr => isfile d (f_file fr) = true) p.
+  Hypothesis Hexist : Forall (fun fr => isfile d0 (f_file fr) = true) p.
   Hypothesis Htxt : txt_untouched mv arch.
 
   Variables (d' : fsmap) (cfg : list (str * option Z)).
-  Hypothesis Hstore : store d step move home pn keep p = Some (d', cfg).
+  Hypothesis Hstore : store_gen ko d step move home pn keep p = Some (d', cfg).
 
   Lemma store_moves : do_moves d3 mv = Some d' /\ cfg = map (fun fr => (dst tdir (f_file fr), f_idx fr)) p.
   Proof.
-    unfold store in Hstore. fold arch tdir d3 mv in Hstore. destruct (do_moves d3 mv) as [d4|]; [|discriminate].
+    unfold store_gen in Hstore. fold arch tdir d0 d3 mv in Hstore. destruct (do_moves d3 mv) as [d4|]; [|discriminate].
     injection Hstore as <- <-. split; reflexivity.
   Qed.
 
@@ -956,7 +980,7 @@ Section RoundTrip.
 
   Theorem store_load_roundtrip : load d' arch = Some (map (reload arch) p).
   Proof.
-    destruct (write_txt_get d arch step move p) as (Go & Ge & Gt). fold d3 in Go, Ge, Gt.
+    destruct (write_txt_get d0 arch step move p) as (Go & Ge & Gt). fold d3 in Go, Ge, Gt.
     unfold load.
     rewrite (txt_survive (pjoin arch traj_txt)), Gt by (cbn; auto).
     rewrite (txt_survive (pjoin arch order_txt)), Go by (cbn; auto).
@@ -989,7 +1013,7 @@ Section RoundTrip.
 
   (* content: with distinct destinations every referenced file holds what its source held *)
   Theorem stored_content : NoDup (map snd mv) -> forall fr, In fr p ->
-    fs_get d' (dst tdir (f_file fr)) = fs_get d (f_file fr).
+    fs_get d' (dst tdir (f_file fr)) = fs_get d0 (f_file fr).
   Proof.
     intros Hnd fr Hfr. destruct store_moves as (Hm & _).
     destruct (move_list_spec d3 tdir keep p Hkeep) as (M1 & M2 & M3 & M4). fold mv in M1, M2, M3, M4.
@@ -1083,8 +1107,6 @@ Qed.
 
 Section DelP.
   Variables (delete_old delete_all : bool) (n : Z).
-  Variable kmax : nat.                         (* ensembles treated by one treat_output call *)
-  Hypothesis Hkmax : Z.of_nat kmax <= n - lag_off + 1.
 
   Notation item_step := (item_step delete_old delete_all n).
   Notation mstep := (mstep delete_old delete_all n).
@@ -1163,6 +1185,152 @@ Section DelP.
     - apply IC_plain. now left.
   Qed.
 
+  Lemma replace_In old new l p : In p (replace_z old new l) -> p = new \/ (In p l /\ p <> old).
+  Proof.
+    unfold replace_z. intros H. apply in_map_iff in H. destruct H as (x & E & Hx).
+    destruct (Z.eqb_spec x old); [now left|right; subst; now split].
+  Qed.
+
+  Lemma qpush_In k q p : In p (qpush k q) -> p = k \/ In p q.
+  Proof. unfold qpush. destruct (zmem k q); [now right|]. intros H. apply in_app_or in H. destruct H as [H|[H|[]]]; auto. Qed.
+
+  Lemma qpush_nth k q i p : nth_error (qpush k q) i = Some p -> nth_error q i = Some p \/ (i = length q /\ p = k /\ qpush k q = q ++ [k]).
+  Proof.
+    unfold qpush. destruct (zmem k q); [now left|]. intros H.
+    destruct (Nat.lt_ge_cases i (length q)) as [Hl|Hl]; [left; now rewrite nth_error_app1 in H|].
+    rewrite nth_error_app2 in H by exact Hl. destruct (i - length q)%nat as [|j] eqn:Ej; [|destruct j; discriminate].
+    cbn in H. injection H as <-. right. repeat split. lia.
+  Qed.
+
+  Lemma qpush_length k q : (length (qpush k q) <= S (length q))%nat /\ (length q <= length (qpush k q))%nat.
+  Proof. unfold qpush. destruct (zmem k q); [lia|]. rewrite app_length. cbn. lia. Qed.
+
+  (* what one operation does to a live state *)
+  Lemma mstep_alive st o : dead st = false ->
+    mstep st o = match o with
+                 | MItem old a b => item_step st old a b
+                 | MEnd => (mkD (live st) (queue st) (next st) (dirs st) (live st) 0 false, [])
+                 | MRestart => (mkD (rec_ st) [] (next st) (dirs st) (rec_ st) 0 false, [])
+                 end.
+  Proof. intros H. unfold StoreM.mstep. now rewrite H. Qed.
+
+  Lemma mstep_dead st o : dead st = true -> mstep st o = (st, []).
+  Proof. intros H. unfold StoreM.mstep. now rewrite H. Qed.
+
+  (* the counter never goes down, so later numbers are larger *)
+  Theorem next_monotone st o : next st <= next (fst (mstep st o)).
+  Proof.
+    destruct (dead st) eqn:Ed; [rewrite mstep_dead by exact Ed; cbn; lia|]. rewrite (mstep_alive st o Ed).
+    destruct o as [old a b| |]; cbn [fst next]; try lia.
+    destruct (item_step_case st old a b); cbn [fst next]; lia.
+  Qed.
+
+  (* ---- the lag: needs no hypothesis on the history at all *)
+  Definition is_repl (e : event) : bool := match e with ERepl _ _ => true | _ => false end.
+  Definition count_repl (ev : list event) : nat := length (filter is_repl ev).
+
+  Lemma count_repl_app a b : count_repl (a ++ b) = (count_repl a + count_repl b)%nat.
+  Proof. unfold count_repl. now rewrite filter_app, app_length. Qed.
+
+  Definition lag_inv (st : dstate) (h : list event) : Prop :=
+    forall k p, nth_error (queue st) k = Some p ->
+      exists e1 nw e2, h = e1 ++ ERepl p nw :: e2 /\ (length (queue st) - 1 - k <= count_repl e2)%nat.
+
+  Definition lag_ok (h ev : list event) : Prop :=
+    forall evA pd evB, ev = evA ++ EDel pd :: evB ->
+      exists e1 nw e2, h ++ evA = e1 ++ ERepl pd nw :: e2 /\ n - lag_off + 1 <= Z.of_nat (count_repl e2).
+
+  Lemma lag_item st old a b h : lag_inv st h ->
+    lag_inv (fst (item_step st old a b)) (h ++ snd (item_step st old a b)) /\ lag_ok h (snd (item_step st old a b)).
+  Proof.
+    intros Hinv.
+    destruct (item_step_case st old a b) as [q2 Hq2| Hq0 Hneg | pd q' Hq Hfull Hg | pd q' q2 Hq Hfull Hg Hq2]; cbn [fst snd].
+    - split.
+      + intros k p Hk. cbn [queue] in *.
+        assert (Hold : nth_error (queue st) k = Some p -> (length q2 <= S (length (queue st)))%nat ->
+                       exists e1 nw e2, h ++ [ERepl old (next st)] = e1 ++ ERepl p nw :: e2 /\ (length q2 - 1 - k <= count_repl e2)%nat).
+        { intros Hk' Hl. destruct (Hinv k p Hk') as (e1 & nw & e2 & -> & Hm). exists e1, nw, (e2 ++ [ERepl old (next st)]).
+          rewrite <- app_assoc. split; [reflexivity|]. rewrite count_repl_app. cbn. lia. }
+        destruct Hq2 as [-> | (-> & _)]; [apply Hold; [exact Hk|lia]|].
+        destruct (qpush_length old (queue st)) as (L1 & L2).
+        apply qpush_nth in Hk. destruct Hk as [Hk|(-> & -> & E)]; [now apply Hold|].
+        exists h, (next st), []. split; [reflexivity|]. rewrite E, app_length. cbn. lia.
+      + intros evA pd evB E. destruct evA as [|x [|y evA]]; cbn in E; try discriminate; try (destruct evA; discriminate).
+    - split.
+      + intros k p Hk. cbn [queue] in Hk. destruct k; discriminate.
+      + intros evA pd evB E. destruct evA as [|x [|y [|z evA]]]; cbn in E; try discriminate; try (destruct evA; discriminate).
+    - assert (Hhead : exists e1 nw e2, h ++ [ERepl old (next st)] = e1 ++ ERepl pd nw :: e2 /\ n - lag_off + 1 <= Z.of_nat (count_repl e2)).
+      { destruct (Hinv 0%nat pd) as (e1 & nw & e2 & -> & Hm); [now rewrite Hq|].
+        exists e1, nw, (e2 ++ [ERepl old (next st)]). rewrite <- app_assoc. split; [reflexivity|]. rewrite count_repl_app. cbn. lia. }
+      split.
+      + intros k p Hk. cbn [queue] in *. destruct (Hinv k p Hk) as (e1 & nw & e2 & -> & Hm).
+        exists e1, nw, (e2 ++ [ERepl old (next st); EDel pd; ECrash]). rewrite <- app_assoc. split; [reflexivity|]. rewrite count_repl_app. cbn. lia.
+      + intros evA pd' evB E. destruct evA as [|x [|y [|z evA]]]; cbn in E; try discriminate.
+        * injection E as <- <- _. exact Hhead.
+        * try (destruct evA; discriminate).
+    - assert (Hhead : exists e1 nw e2, h ++ [ERepl old (next st)] = e1 ++ ERepl pd nw :: e2 /\ n - lag_off + 1 <= Z.of_nat (count_repl e2)).
+      { destruct (Hinv 0%nat pd) as (e1 & nw & e2 & -> & Hm); [now rewrite Hq|].
+        exists e1, nw, (e2 ++ [ERepl old (next st)]). rewrite <- app_assoc. split; [reflexivity|]. rewrite count_repl_app. cbn. lia. }
+      split.
+      + intros k p Hk. cbn [queue] in *.
+        assert (Hold : nth_error q' k = Some p -> (length q2 <= S (length q'))%nat ->
+                       exists e1 nw e2, h ++ [ERepl old (next st); EDel pd] = e1 ++ ERepl p nw :: e2 /\ (length q2 - 1 - k <= count_repl e2)%nat).
+        { intros Hk' Hl. destruct (Hinv (S k) p) as (e1 & nw & e2 & -> & Hm); [now rewrite Hq|]. rewrite Hq in Hm. cbn [length] in Hm.
+          exists e1, nw, (e2 ++ [ERepl old (next st); EDel pd]). rewrite <- app_assoc. split; [reflexivity|]. rewrite count_repl_app. cbn. lia. }
+        destruct Hq2 as [-> | ->]; [apply Hold; [exact Hk|lia]|].
+        destruct (qpush_length old q') as (L1 & L2).
+        apply qpush_nth in Hk. destruct Hk as [Hk|(-> & -> & E)]; [now apply Hold|].
+        exists h, (next st), [EDel pd]. split; [reflexivity|]. rewrite E, app_length. cbn. lia.
+      + intros evA pd' evB E. destruct evA as [|x [|y evA]]; cbn in E; try discriminate.
+        * injection E as <- <- _. exact Hhead.
+        * try (destruct evA; discriminate).
+  Qed.
+
+  Lemma lag_step st o h : lag_inv st h -> lag_inv (fst (mstep st o)) (h ++ snd (mstep st o)) /\ lag_ok h (snd (mstep st o)).
+  Proof.
+    intros Hinv. destruct (dead st) eqn:Ed.
+    - rewrite mstep_dead by exact Ed. cbn [fst snd]. rewrite app_nil_r. split; [exact Hinv|].
+      intros evA pd evB E. destruct evA; discriminate.
+    - rewrite (mstep_alive st o Ed). destruct o as [old a b| |]; [now apply lag_item| |]; cbn [fst snd]; rewrite app_nil_r; split;
+        try (intros evA pd evB E; destruct evA; discriminate).
+      + exact Hinv.
+      + intros k p Hk. destruct k; discriminate.
+  Qed.
+
+  Lemma mrun_cons st o r : mrun st (o :: r) = (fst (mrun (fst (mstep st o)) r), snd (mstep st o) ++ snd (mrun (fst (mstep st o)) r)).
+  Proof. cbn [StoreM.mrun]. destruct (mstep st o) as [st1 e1]. cbn [fst snd]. destruct (mrun st1 r) as [st2 e2]. reflexivity. Qed.
+
+  Theorem lag_run : forall ops st h, lag_inv st h ->
+    lag_inv (fst (mrun st ops)) (h ++ snd (mrun st ops)) /\ lag_ok h (snd (mrun st ops)).
+  Proof.
+    induction ops as [|o r IH]; intros st h Hinv.
+    - cbn [StoreM.mrun fst snd]. rewrite app_nil_r. split; [exact Hinv|]. intros evA pd evB E. destruct evA; discriminate.
+    - rewrite mrun_cons. cbn [fst snd]. destruct (lag_step st o h Hinv) as (H1 & H2).
+      destruct (IH _ _ H1) as (H3 & H4). split; [now rewrite app_assoc|].
+      intros evA pd evB E. apply app_eq_app in E. destruct E as (l & [(E1 & E2)|(E1 & E2)]).
+      + destruct l as [|x l].
+        * (* the deletion is the first event of the later operations *)
+          rewrite app_nil_r in E1. cbn [app] in E2. destruct (H4 [] pd evB (eq_sym E2)) as (e1 & nw & e2 & Ee & Hc).
+          exists e1, nw, e2. split; [|exact Hc]. rewrite app_nil_r in Ee. now rewrite <- E1.
+        * (* the deletion belongs to this operation *)
+          cbn [app] in E2. injection E2 as <- E2. exact (H2 evA pd l E1).
+      + (* the deletion belongs to a later operation *)
+        destruct (H4 l pd evB E2) as (e1 & nw & e2 & Ee & Hc). exists e1, nw, e2. split; [|exact Hc].
+        now rewrite E1, app_assoc.
+  Qed.
+
+  Theorem lag_from_start ops lv nx ds evA pd evB :
+    snd (mrun (init_state lv nx ds) ops) = evA ++ EDel pd :: evB ->
+    exists e1 nw e2, evA = e1 ++ ERepl pd nw :: e2 /\ n - lag_off + 1 <= Z.of_nat (count_repl e2).
+  Proof.
+    intros E. assert (H0 : lag_inv (init_state lv nx ds) []) by (intros k p Hk; destruct k; discriminate).
+    destruct (lag_run ops _ [] H0) as (_ & H). exact (H evA pd evB E).
+  Qed.
+
+  (* ---- from here on: at most kmax ensembles per treat_output call *)
+  Variable kmax : nat.                         (* ensembles treated by one treat_output call *)
+  Hypothesis Hkmax : Z.of_nat kmax <= n - lag_off + 1.
+
   (* ---- the invariant of a run that has not crashed *)
   Record wf (st : dstate) : Prop := mkWf {
     wf_alive : dead st = false;
@@ -1185,26 +1353,6 @@ Section DelP.
     | MRestart => cnt st = 0%nat
     end.
 
-  Lemma replace_In old new l p : In p (replace_z old new l) -> p = new \/ (In p l /\ p <> old).
-  Proof.
-    unfold replace_z. intros H. apply in_map_iff in H. destruct H as (x & E & Hx).
-    destruct (Z.eqb_spec x old); [now left|right; subst; now split].
-  Qed.
-
-  Lemma qpush_In k q p : In p (qpush k q) -> p = k \/ In p q.
-  Proof. unfold qpush. destruct (zmem k q); [now right|]. intros H. apply in_app_or in H. destruct H as [H|[H|[]]]; auto. Qed.
-
-  Lemma qpush_nth k q i p : nth_error (qpush k q) i = Some p -> nth_error q i = Some p \/ (i = length q /\ p = k /\ qpush k q = q ++ [k]).
-  Proof.
-    unfold qpush. destruct (zmem k q); [now left|]. intros H.
-    destruct (Nat.lt_ge_cases i (length q)) as [Hl|Hl]; [left; now rewrite nth_error_app1 in H|].
-    rewrite nth_error_app2 in H by exact Hl. destruct (i - length q)%nat as [|j] eqn:Ej; [|destruct j; discriminate].
-    cbn in H. injection H as <-. right. repeat split. lia.
-  Qed.
-
-  Lemma qpush_length k q : (length (qpush k q) <= S (length q))%nat /\ (length q <= length (qpush k q))%nat.
-  Proof. unfold qpush. destruct (zmem k q); [lia|]. rewrite app_length. cbn. lia. Qed.
-
   (* the head of a full queue is not in the restart record on disk *)
   Lemma head_not_in_rec st pd q' : wf st -> (cnt st < kmax)%nat -> queue st = pd :: q' ->
     n - lag_off < Z.of_nat (length (queue st)) -> ~ In pd (rec_ st).
@@ -1212,15 +1360,6 @@ Section DelP.
     intros Hwf Hc Hq Hfull Hin. pose proof (wf_rec_recent st Hwf 0%nat pd) as H. rewrite Hq in H. specialize (H eq_refl Hin).
     rewrite Hq in Hfull. lia.
   Qed.
-
-  (* what one operation does to a live state *)
-  Lemma mstep_alive st o : dead st = false ->
-    mstep st o = match o with
-                 | MItem old a b => item_step st old a b
-                 | MEnd => (mkD (live st) (queue st) (next st) (dirs st) (live st) 0 false, [])
-                 | MRestart => (mkD (rec_ st) [] (next st) (dirs st) (rec_ st) 0 false, [])
-                 end.
-  Proof. intros H. unfold StoreM.mstep. now rewrite H. Qed.
 
   Theorem wf_step st o : wf st -> valid st o -> dead (fst (mstep st o)) = false -> wf (fst (mstep st o)).
   Proof.
@@ -1329,9 +1468,6 @@ Section DelP.
   | reach_refl : reach st0 st0
   | reach_step st o : reach st0 st -> valid st o -> reach st0 (fst (mstep st o)).
 
-  Lemma mstep_dead st o : dead st = true -> mstep st o = (st, []).
-  Proof. intros H. unfold StoreM.mstep. now rewrite H. Qed.
-
   Theorem reach_inv st0 st : wf st0 -> reach st0 st -> dead st = true \/ wf st.
   Proof.
     intros H0. induction 1 as [|st o Hr IH Hv]; [now right|].
@@ -1395,7 +1531,7 @@ Section DelP.
     destruct (gone_stays st o pd (or_intror Hwf) Hv Hpdlt Hl Hrc) as (G1 & G2 & G3 & _).
     assert (Hinv1 : dead (fst (mstep st o)) = true \/ wf (fst (mstep st o))).
     { destruct (dead (fst (mstep st o))) eqn:E; [now left|right; now apply wf_step]. }
-    assert (Gen : dead st2 = true \/ wf st2) /\ pd < next st2 /\ ~ In pd (live st2) /\ ~ In pd (rec_ st2)).
+    assert (Gen : (dead st2 = true \/ wf st2) /\ pd < next st2 /\ ~ In pd (live st2) /\ ~ In pd (rec_ st2)).
     { induction Hr2 as [|st3 o3 Hr3 IH Hv3]; [repeat split; auto|].
       destruct IH as (Hi & I1 & I2 & I3). destruct (gone_stays st3 o3 pd Hi Hv3 I1 I2 I3) as (J1 & J2 & J3 & _).
       repeat split; auto. destruct Hi as [Hd3|Hw3]; [left; now rewrite mstep_dead|].
@@ -1425,105 +1561,217 @@ Section DelP.
     - destruct (item_step_case st old' a b) as [q2 Hq2| Hq0 Hneg | pd' q' Hq Hfull Hg | pd' q' q2 Hq Hfull Hg Hq2]; cbn [fst dead next]; congruence.
   Qed.
 
-  (* the counter never goes down, so later numbers are larger *)
-  Theorem next_monotone st o : next st <= next (fst (mstep st o)).
+  (* the state a run (or a restarted run) begins with *)
+  Lemma init_state_wf lv nx ds :
+    (forall p, In p lv -> p < nx) -> (forall p, In p (map fst ds) -> p < nx) -> (forall p, In p lv -> complete ds p) ->
+    wf (init_state lv nx ds).
   Proof.
-    destruct (dead st) eqn:Ed; [rewrite mstep_dead by exact Ed; cbn; lia|]. rewrite (mstep_alive st o Ed).
-    destruct o as [old a b| |]; cbn [fst next]; try lia.
-    destruct (item_step_case st old a b); cbn [fst next]; lia.
+    intros H1 H2 H3. constructor; cbn [init_state live queue next dirs rec_ cnt dead]; auto;
+      try (now intros p []); try (intros k p Hk; destruct k; discriminate).
   Qed.
 
-  (* ---- the lag: needs no hypothesis on the history at all *)
-  Definition is_repl (e : event) : bool := match e with ERepl _ _ => true | _ => false end.
-  Definition count_repl (ev : list event) : nat := length (filter is_repl ev).
-
-  Lemma count_repl_app a b : count_repl (a ++ b) = (count_repl a + count_repl b)%nat.
-  Proof. unfold count_repl. now rewrite filter_app, app_length. Qed.
-
-  Definition lag_inv (st : dstate) (h : list event) : Prop :=
-    forall k p, nth_error (queue st) k = Some p ->
-      exists e1 nw e2, h = e1 ++ ERepl p nw :: e2 /\ (length (queue st) - 1 - k <= count_repl e2)%nat.
-
-  Definition lag_ok (h ev : list event) : Prop :=
-    forall evA pd evB, ev = evA ++ EDel pd :: evB ->
-      exists e1 nw e2, h ++ evA = e1 ++ ERepl pd nw :: e2 /\ n - lag_off + 1 <= Z.of_nat (count_repl e2).
-
-  Lemma lag_item st old a b h : lag_inv st h ->
-    lag_inv (fst (item_step st old a b)) (h ++ snd (item_step st old a b)) /\ lag_ok h (snd (item_step st old a b)).
-  Proof.
-    intros Hinv.
-    destruct (item_step_case st old a b) as [q2 Hq2| Hq0 Hneg | pd q' Hq Hfull Hg | pd q' q2 Hq Hfull Hg Hq2]; cbn [fst snd].
-    - split.
-      + intros k p Hk. cbn [queue] in *.
-        assert (Hold : nth_error (queue st) k = Some p -> (length q2 <= S (length (queue st)))%nat ->
-                       exists e1 nw e2, h ++ [ERepl old (next st)] = e1 ++ ERepl p nw :: e2 /\ (length q2 - 1 - k <= count_repl e2)%nat).
-        { intros Hk' Hl. destruct (Hinv k p Hk') as (e1 & nw & e2 & -> & Hm). exists e1, nw, (e2 ++ [ERepl old (next st)]).
-          rewrite <- app_assoc. split; [reflexivity|]. rewrite count_repl_app. cbn. lia. }
-        destruct Hq2 as [-> | (-> & _)]; [apply Hold; [exact Hk|lia]|].
-        destruct (qpush_length old (queue st)) as (L1 & L2).
-        apply qpush_nth in Hk. destruct Hk as [Hk|(-> & -> & E)]; [now apply Hold|].
-        exists h, (next st), []. split; [reflexivity|]. rewrite E, app_length. cbn. lia.
-      + intros evA pd evB E. destruct evA as [|x [|y evA]]; cbn in E; try discriminate. destruct evA; discriminate.
-    - split.
-      + intros k p Hk. cbn [queue] in Hk. destruct k; discriminate.
-      + intros evA pd evB E. destruct evA as [|x [|y [|z evA]]]; cbn in E; try discriminate. destruct evA; discriminate.
-    - assert (Hhead : exists e1 nw e2, h ++ [ERepl old (next st)] = e1 ++ ERepl pd nw :: e2 /\ n - lag_off + 1 <= Z.of_nat (count_repl e2)).
-      { destruct (Hinv 0%nat pd) as (e1 & nw & e2 & -> & Hm); [now rewrite Hq|].
-        exists e1, nw, (e2 ++ [ERepl old (next st)]). rewrite <- app_assoc. split; [reflexivity|]. rewrite count_repl_app. cbn. lia. }
-      split.
-      + intros k p Hk. cbn [queue] in *. destruct (Hinv k p Hk) as (e1 & nw & e2 & -> & Hm).
-        exists e1, nw, (e2 ++ [ERepl old (next st); EDel pd; ECrash]). rewrite <- app_assoc. split; [reflexivity|]. rewrite count_repl_app. cbn. lia.
-      + intros evA pd' evB E. destruct evA as [|x [|y [|z evA]]]; cbn in E; try discriminate.
-        * injection E as _ <- _. exact Hhead.
-        * destruct evA; discriminate.
-    - assert (Hhead : exists e1 nw e2, h ++ [ERepl old (next st)] = e1 ++ ERepl pd nw :: e2 /\ n - lag_off + 1 <= Z.of_nat (count_repl e2)).
-      { destruct (Hinv 0%nat pd) as (e1 & nw & e2 & -> & Hm); [now rewrite Hq|].
-        exists e1, nw, (e2 ++ [ERepl old (next st)]). rewrite <- app_assoc. split; [reflexivity|]. rewrite count_repl_app. cbn. lia. }
-      split.
-      + intros k p Hk. cbn [queue] in *.
-        assert (Hold : nth_error q' k = Some p -> (length q2 <= S (length q'))%nat ->
-                       exists e1 nw e2, h ++ [ERepl old (next st); EDel pd] = e1 ++ ERepl p nw :: e2 /\ (length q2 - 1 - k <= count_repl e2)%nat).
-        { intros Hk' Hl. destruct (Hinv (S k) p) as (e1 & nw & e2 & -> & Hm); [now rewrite Hq|]. rewrite Hq in Hm. cbn [length] in Hm.
-          exists e1, nw, (e2 ++ [ERepl old (next st); EDel pd]). rewrite <- app_assoc. split; [reflexivity|]. rewrite count_repl_app. cbn. lia. }
-        destruct Hq2 as [-> | ->]; [apply Hold; [exact Hk|lia]|].
-        destruct (qpush_length old q') as (L1 & L2).
-        apply qpush_nth in Hk. destruct Hk as [Hk|(-> & -> & E)]; [now apply Hold|].
-        exists h, (next st), [EDel pd]. split; [reflexivity|]. rewrite E, app_length. cbn. lia.
-      + intros evA pd' evB E. destruct evA as [|x [|y evA]]; cbn in E; try discriminate.
-        * injection E as _ <- _. exact Hhead.
-        * destruct evA; discriminate.
-  Qed.
-
-  Lemma lag_step st o h : lag_inv st h -> lag_inv (fst (mstep st o)) (h ++ snd (mstep st o)) /\ lag_ok h (snd (mstep st o)).
-  Proof.
-    intros Hinv. destruct (dead st) eqn:Ed.
-    - rewrite mstep_dead by exact Ed. cbn [fst snd]. rewrite app_nil_r. split; [exact Hinv|].
-      intros evA pd evB E. destruct evA; discriminate.
-    - rewrite (mstep_alive st o Ed). destruct o as [old a b| |]; [now apply lag_item| |]; cbn [fst snd]; rewrite app_nil_r; split;
-        try (intros evA pd evB E; destruct evA; discriminate).
-      + exact Hinv.
-      + intros k p Hk. destruct k; discriminate.
-  Qed.
-
-  Lemma mrun_cons st o r : mrun st (o :: r) = (fst (mrun (fst (mstep st o)) r), snd (mstep st o) ++ snd (mrun (fst (mstep st o)) r)).
-  Proof. cbn [StoreM.mrun]. destruct (mstep st o) as [st1 e1]. cbn [fst snd]. destruct (mrun st1 r) as [st2 e2]. reflexivity. Qed.
-
-  Theorem lag_run : forall ops st h, lag_inv st h ->
-    lag_inv (fst (mrun st ops)) (h ++ snd (mrun st ops)) /\ lag_ok h (snd (mrun st ops)).
-  Proof.
-    induction ops as [|o r IH]; intros st h Hinv.
-    - cbn [StoreM.mrun fst snd]. rewrite app_nil_r. split; [exact Hinv|]. intros evA pd evB E. destruct evA; discriminate.
-    - rewrite mrun_cons. cbn [fst snd]. destruct (lag_step st o h Hinv) as (H1 & H2).
-      destruct (IH _ _ H1) as (H3 & H4). split; [now rewrite app_assoc|].
-      intros evA pd evB E. apply app_eq_app in E. destruct E as (l & [(E1 & E2)|(E1 & E2)]).
-      + destruct l as [|x l].
-        * (* the deletion is the first event of the later operations *)
-          rewrite app_nil_r in E1. cbn [app] in E2. destruct (H4 [] pd evB (eq_sym E2)) as (e1 & nw & e2 & Ee & Hc).
-          exists e1, nw, e2. split; [|exact Hc]. rewrite app_nil_r in Ee. now rewrite <- E1.
-        * (* the deletion belongs to this operation *)
-          cbn [app] in E2. injection E2 as <- E2. exact (H2 evA pd l E1).
-      + (* the deletion belongs to a later operation *)
-        destruct (H4 l pd evB E2) as (e1 & nw & e2 & Ee & Hc). exists e1, nw, e2. split; [|exact Hc].
-        now rewrite E1, app_assoc.
-  Qed.
 End DelP.
+
+(* ================================================================== statements used by theorems/C14.v *)
+
+Lemma pow10p_6 : (2 * pow10p 6 = 2000000)%positive.
+Proof. reflexivity. Qed.
+
+Lemma rnd_bound d v q : d = 6%nat -> rnd d (Some v) = Some q -> (Qabs (q - snd v) <= 1 # 2000000)%Q.
+Proof. intros -> H. apply rnd_error in H. now rewrite pow10p_6 in H. Qed.
+
+Lemma reload_frame_spec pdir fr :
+  l_file (reload pdir fr) = pjoin (pjoin pdir acc_dir) (basename (f_file fr)) /\
+  l_idx (reload pdir fr) = match f_idx fr with None => 0 | Some k => k end /\
+  l_rev (reload pdir fr) = f_rev fr /\
+  length (l_orders (reload pdir fr)) = length (f_orders fr) /\
+  (forall k v q, nth_error (f_orders fr) k = Some (Some v) -> nth_error (l_orders (reload pdir fr)) k = Some (Some q) ->
+     (Qabs (q - snd v) <= 1 # 2000000)%Q) /\
+  (forall k, nth_error (f_orders fr) k = Some None -> nth_error (l_orders (reload pdir fr)) k = Some None) /\
+  (forall v, f_vpot fr = Some v -> exists q, l_vpot (reload pdir fr) = Some (Some q) /\ (Qabs (q - snd v) <= 1 # 2000000)%Q) /\
+  (f_vpot fr = None -> l_vpot (reload pdir fr) = Some None) /\
+  (forall v, f_ekin fr = Some v -> exists q, l_ekin (reload pdir fr) = Some (Some q) /\ (Qabs (q - snd v) <= 1 # 2000000)%Q) /\
+  (f_ekin fr = None -> l_ekin (reload pdir fr) = Some None).
+Proof.
+  unfold reload. cbn [l_file l_idx l_rev l_orders l_vpot l_ekin]. repeat split.
+  - now rewrite map_length.
+  - intros k v q H1 H2. rewrite (map_nth_error (rnd order_d) _ _ H1) in H2. injection H2 as H2. apply (rnd_bound order_d v q); [reflexivity|cbn; now f_equal].
+  - intros k H1. now rewrite (map_nth_error (rnd order_d) _ _ H1).
+  - intros v ->. eexists. split; [reflexivity|]. apply (rnd_bound energy_d v); reflexivity.
+  - now intros ->.
+  - intros v ->. eexists. split; [reflexivity|]. apply (rnd_bound energy_d v); reflexivity.
+  - now intros ->.
+Qed.
+
+(* ---- the repaired output() (files the path refers to are spared): hypotheses on the disk as it is *)
+Lemma isfile_clean_true tdir p d fr : In fr p -> isfile (clean_dir true tdir p d) (f_file fr) = isfile d (f_file fr).
+Proof. intros H. unfold isfile. rewrite clean_keeps_sources by now apply in_map. reflexivity. Qed.
+
+Lemma exist_clean_true tdir p d : Forall (fun fr => isfile d (f_file fr) = true) p ->
+  Forall (fun fr => isfile (clean_dir true tdir p d) (f_file fr) = true) p.
+Proof. rewrite !Forall_forall. intros H fr Hfr. rewrite isfile_clean_true by exact Hfr. now apply H. Qed.
+
+Theorem roundtrip_repaired (d : fsmap) (step : Z) (move home : str) (pn : Z) (keep : list str) (p : list frame) (ncol : nat) :
+  p <> [] -> nonl move -> Forall name_ok p ->
+  Forall (fun fr => length (f_orders fr) = ncol) p ->
+  Forall no_slash keep ->
+  Forall (fun fr => isfile d (f_file fr) = true) p ->
+  txt_untouched (move_list (write_txt (clean_dir true (accepted_dir (archive_dir home pn)) p d) (archive_dir home pn) step move p)
+                           (accepted_dir (archive_dir home pn)) keep p) (archive_dir home pn) ->
+  forall d' cfg, store_gen true d step move home pn keep p = Some (d', cfg) ->
+  load d' (archive_dir home pn) = Some (map (reload (archive_dir home pn)) p).
+Proof.
+  intros H1 H2 H3 H4 H5 H6 H7 d' cfg H8.
+  apply (store_load_roundtrip true d step move home pn keep p ncol H1 H2 H3 H4 H5 (exist_clean_true _ _ _ H6) H7 d' cfg H8).
+Qed.
+
+Theorem files_exist_repaired (d : fsmap) (step : Z) (move home : str) (pn : Z) (keep : list str) (p : list frame) :
+  Forall no_slash keep ->
+  Forall (fun fr => isfile d (f_file fr) = true) p ->
+  forall d' cfg, store_gen true d step move home pn keep p = Some (d', cfg) ->
+  forall lf, In lf (map (reload (archive_dir home pn)) p) ->
+  exists s, In (s, l_file lf) (move_list (write_txt (clean_dir true (accepted_dir (archive_dir home pn)) p d) (archive_dir home pn) step move p)
+                                          (accepted_dir (archive_dir home pn)) keep p) /\
+            l_file lf = pjoin (accepted_dir (archive_dir home pn)) (basename s) /\
+            isfile d' (l_file lf) = true.
+Proof.
+  intros H1 H2 d' cfg H3. apply (stored_files_exist true d step move home pn keep p H1 (exist_clean_true _ _ _ H2) d' cfg H3).
+Qed.
+
+Theorem content_repaired (d : fsmap) (step : Z) (move home : str) (pn : Z) (keep : list str) (p : list frame) :
+  Forall no_slash keep ->
+  txt_untouched (move_list (write_txt (clean_dir true (accepted_dir (archive_dir home pn)) p d) (archive_dir home pn) step move p)
+                           (accepted_dir (archive_dir home pn)) keep p) (archive_dir home pn) ->
+  forall d' cfg, store_gen true d step move home pn keep p = Some (d', cfg) ->
+  NoDup (map snd (move_list (write_txt (clean_dir true (accepted_dir (archive_dir home pn)) p d) (archive_dir home pn) step move p)
+                            (accepted_dir (archive_dir home pn)) keep p)) ->
+  forall fr, In fr p -> fs_get d' (dst (accepted_dir (archive_dir home pn)) (f_file fr)) = fs_get d (f_file fr).
+Proof.
+  intros H1 H2 d' cfg H3 H4 fr Hfr.
+  rewrite (stored_content true d step move home pn keep p H1 H2 d' cfg H3 H4 fr Hfr). apply clean_keeps_sources. now apply in_map.
+Qed.
+
+Lemma stored_content_distinct (d : fsmap) (step : Z) (move home : str) (pn : Z) (p : list frame) :
+  distinct_basenames p ->
+  (forall fr, In fr p -> ~ In (f_file fr) (txt_files (archive_dir home pn))) ->
+  forall d' cfg, store_gen true d step move home pn [] p = Some (d', cfg) ->
+  forall fr, In fr p -> fs_get d' (l_file (reload (archive_dir home pn) fr)) = fs_get d (f_file fr).
+Proof.
+  intros Hd Htxt d' cfg Hs fr Hfr. cbn [reload l_file].
+  apply (content_repaired d step move home pn [] p (Forall_nil _)) with (cfg := cfg); auto.
+  - now apply txt_untouched_nokeep.
+  - now apply distinct_dests.
+Qed.
+
+(* ---- concrete witnesses *)
+Definition s_w0a : str := [119; 48; 47; 97].     (* "w0/a" *)
+Definition s_w1a : str := [119; 49; 47; 97].     (* "w1/a" *)
+Definition s_w0b : str := [119; 48; 47; 98].     (* "w0/b" *)
+Definition q1 : fval := Some (false, 1 # 128).                 (* a tie of the sixth decimal *)
+Definition q2 : fval := Some (false, 123456789 # 1000).        (* wider than the field *)
+Definition q3 : fval := Some (true, 0 # 1).                        (* -0.0 *)
+Definition cx_d : fsmap := [(s_w0a, [120]); (s_w1a, [121]); (s_w0b, [122])].
+Definition cx_p : list frame := [mkFrame [q1] None q2 s_w0a (Some 0) false; mkFrame [q3] q1 None s_w1a None true].
+Definition ex_p : list frame :=
+  [mkFrame [q1; q2] None q2 s_w0a None true; mkFrame [q3; None] q1 None s_w0b (Some 5) false; mkFrame [q2; q1] q3 q3 s_w0a (Some 3) false].
+
+Lemma collision_refuted :
+  exists d step move home pn p d' cfg fr,
+    Forall (fun fr => isfile d (f_file fr) = true) p /\ store_gen true d step move home pn [] p = Some (d', cfg) /\
+    load d' (archive_dir home pn) = Some (map (reload (archive_dir home pn)) p) /\
+    In fr p /\ fs_get d' (l_file (reload (archive_dir home pn) fr)) <> fs_get d (f_file fr).
+Proof.
+  destruct (store_gen true cx_d 7 [115; 104] [108] 3 [] cx_p) as [[d' cfg]|] eqn:E; [|vm_compute in E; discriminate].
+  exists cx_d, 7, [115; 104], [108], 3, cx_p, d', cfg, (mkFrame [q1] None q2 s_w0a (Some 0) false).
+  split; [repeat constructor|]. split; [exact E|]. vm_compute in E. injection E as <- <-.
+  split; [vm_compute; reflexivity|]. split; [now left|]. vm_compute. discriminate.
+Qed.
+
+Lemma example_store :
+  exists d p d' cfg,
+    p <> [] /\ Forall name_ok p /\ Forall (fun fr => length (f_orders fr) = 2%nat) p /\
+    Forall (fun fr => isfile d (f_file fr) = true) p /\ distinct_basenames p /\
+    store_gen true d 7 [115; 104] [108] 3 [] p = Some (d', cfg) /\
+    load d' (archive_dir [108] 3) = Some (map (reload (archive_dir [108] 3)) p) /\ length p = 3%nat.
+Proof.
+  destruct (store_gen true cx_d 7 [115; 104] [108] 3 [] ex_p) as [[d' cfg]|] eqn:E; [|vm_compute in E; discriminate].
+  exists cx_d, ex_p, d', cfg.
+  assert (Hn : Forall name_ok ex_p) by (repeat constructor; vm_compute; discriminate).
+  assert (Hc : Forall (fun fr => length (f_orders fr) = 2%nat) ex_p) by (repeat constructor).
+  assert (Hx : Forall (fun fr => isfile cx_d (f_file fr) = true) ex_p) by (repeat constructor).
+  split; [discriminate|]. split; [exact Hn|]. split; [exact Hc|]. split; [exact Hx|]. split.
+  - intros f1 f2 H1 H2 Eb. cbn [In ex_p] in H1, H2.
+    destruct H1 as [<-|[<-|[<-|[]]]]; destruct H2 as [<-|[<-|[<-|[]]]]; try reflexivity; vm_compute in Eb; discriminate.
+  - split; [exact E|]. split; [|reflexivity].
+    (* by the theorem, not by computation: its hypotheses are met *)
+    apply (roundtrip_repaired cx_d 7 [115; 104] [108] 3 [] ex_p 2%nat) with (cfg := cfg); auto.
+    + discriminate.
+    + reflexivity.
+    + apply txt_untouched_nokeep. intros fr Hfr. cbn [In ex_p] in Hfr.
+      destruct Hfr as [<-|[<-|[<-|[]]]]; vm_compute; intros [H|[H|[H|[]]]]; discriminate.
+Qed.
+
+(* the code of fix 5456497 without the repair: a path stored again in its own directory loses the
+   file it refers to; every hypothesis of the theorem for the repaired code holds *)
+Definition s_inplace : str := [108; 47; 51; 47; 97; 99; 99; 101; 112; 116; 101; 100; 47; 97].     (* "l/3/accepted/a" *)
+Definition ip_d : fsmap := [(s_inplace, [120]); (s_w0b, [122])].
+Definition ip_p : list frame := [mkFrame [q1] None q2 s_inplace (Some 0) false; mkFrame [q3] q1 None s_w0b None true].
+
+Lemma inplace_refuted :
+  exists d p d' cfg,
+    p <> [] /\ Forall name_ok p /\ Forall (fun fr => length (f_orders fr) = 1%nat) p /\
+    Forall (fun fr => isfile d (f_file fr) = true) p /\ distinct_basenames p /\
+    (forall fr, In fr p -> ~ In (f_file fr) (txt_files (archive_dir [108] 3))) /\
+    store_gen false d 7 [115; 104] [108] 3 [] p = Some (d', cfg) /\ load d' (archive_dir [108] 3) = None /\
+    exists d2 cfg2, store_gen true d 7 [115; 104] [108] 3 [] p = Some (d2, cfg2) /\
+                    load d2 (archive_dir [108] 3) = Some (map (reload (archive_dir [108] 3)) p).
+Proof.
+  destruct (store_gen false ip_d 7 [115; 104] [108] 3 [] ip_p) as [[d' cfg]|] eqn:E; [|vm_compute in E; discriminate].
+  destruct (store_gen true ip_d 7 [115; 104] [108] 3 [] ip_p) as [[d2 cfg2]|] eqn:E2; [|vm_compute in E2; discriminate].
+  exists ip_d, ip_p, d', cfg.
+  split; [discriminate|]. split; [repeat constructor; vm_compute; discriminate|]. split; [repeat constructor|].
+  split; [repeat constructor|]. split.
+  - intros f1 f2 H1 H2 Eb. cbn [In ip_p] in H1, H2.
+    destruct H1 as [<-|[<-|[]]]; destruct H2 as [<-|[<-|[]]]; try reflexivity; vm_compute in Eb; discriminate.
+  - split.
+    + intros fr Hfr. cbn [In ip_p] in Hfr. destruct Hfr as [<-|[<-|[]]]; vm_compute; intros [H|[H|[H|[]]]]; discriminate.
+    + split; [exact E|]. vm_compute in E. injection E as <- <-. split; [vm_compute; reflexivity|].
+      exists d2, cfg2. split; [exact E2|]. vm_compute in E2. injection E2 as <- <-. vm_compute. reflexivity.
+Qed.
+
+Definition o2_st0 : dstate := init_state [0; 1; 2] 3 [(0, full_dir 1); (1, full_dir 1); (2, full_dir 1)].
+
+Lemma o2_witness :
+  exists ops, dead (fst (mrun true true 4 o2_st0 ops)) = true /\ In ECrash (snd (mrun true true 4 o2_st0 ops)).
+Proof.
+  exists [MItem 0 2 2; MEnd; MItem 3 2 2; MEnd; MItem 4 2 2; MEnd; MItem 5 2 2; MEnd; MItem 6 2 2; MEnd].
+  split; [vm_compute; reflexivity|]. vm_compute. repeat (first [left; reflexivity | right]).
+Qed.
+
+Lemma example_delete :
+  let st0 := o2_st0 in
+  let ops := [MItem 0 2 0; MEnd; MItem 3 2 0; MItem 1 2 0; MEnd; MItem 4 2 0; MEnd; MRestart; MItem 6 2 0; MEnd; MItem 7 2 0; MEnd;
+              MItem 8 2 0; MItem 5 2 0; MEnd; MItem 9 2 0; MEnd] in
+  wf 4 st0 /\ Z.of_nat 2 <= 4 - lag_off + 1 /\
+  snd (mrun true false 4 st0 ops) =
+    [ERepl 0 3; ERepl 3 4; ERepl 1 5; ERepl 4 6; ERepl 6 7; ERepl 7 8; ERepl 8 9; ERepl 5 10; EDel 6; ERepl 9 11; EDel 7] /\
+  live (fst (mrun true false 4 st0 ops)) = [11; 10; 2].
+Proof.
+  cbv zeta. split; [|split; [vm_compute; discriminate|split; vm_compute; reflexivity]].
+  apply init_state_wf.
+  - intros p [<-|[<-|[<-|[]]]]; lia.
+  - intros p Hp. cbn in Hp. destruct Hp as [<-|[<-|[<-|[]]]]; lia.
+  - intros p [<-|[<-|[<-|[]]]]; eexists; (split; [vm_compute; reflexivity|split; reflexivity]).
+Qed.
+
+Lemma lag_from_start_n1 (delete_old delete_all : bool) (n : Z) ops lv nx ds evA pd evB :
+  snd (mrun delete_old delete_all n (init_state lv nx ds) ops) = evA ++ EDel pd :: evB ->
+  exists e1 nw e2, evA = e1 ++ ERepl pd nw :: e2 /\ n - 1 <= Z.of_nat (count_repl e2).
+Proof.
+  intros E. destruct (lag_from_start delete_old delete_all n ops lv nx ds evA pd evB E) as (e1 & nw & e2 & H1 & H2).
+  exists e1, nw, e2. split; [exact H1|]. change lag_off with 2 in H2. lia.
+Qed.
+
+Lemma width_guard_field nz x :
+  width_guard order_w order_d nz x = true <-> length (print_field order_w order_d (Some (nz, x))) = order_w.
+Proof. symmetry. exact (width_guard_spec order_w order_d nz x). Qed.
